@@ -48,6 +48,29 @@ def run_c12(pid, tier):
     v.finish()
 
 
+def run_c13(pid, tier):
+    t0 = time.time()
+    v = Verdict(pid, tier, t0)
+    mr, ml, dmax, nrand = (3, 2, 3, 10) if tier == 'quick' else (4, 4, 4, 60)
+    mc = run_tlc('MCIndexKernel', 'SPECIFICATION Spec\nCONSTANTS MaxRound = %d MaxReps = 1\nINVARIANT Inv\n' % (mr + 1), workers=8, timeout=1500)
+    tin = os.path.join(scratch(), 'kc_in.json')
+    run_impl('drv_kernel_circuit.py', [mr, ml, dmax, tin, common.seed(), nrand], timeout=6000)
+    rows = json.load(open(tin))
+    tr, res = table_check(v, 'KernelCircuitTrace', '', tin, rows, 'C13')
+    v.coverage.update({
+        'states': mc.distinct + tr.distinct, 'transitions': mc.generated + tr.generated,
+        'traces_validated_against_impl': len(rows) - len(res['fails']), 'evaluations': len(rows),
+        'distinct_nontrivial': len(set(json.dumps([r['rounds'], r['d']]) for r in rows if len(r['rounds']) >= 2 or 0 in r['rounds'])),
+        'rule': 'every list of <= %d distinct round counts from 0..%d in any order x code distance 2..%d (one random computational initial state each), plus %d random '
+                'lists with counts <= 8: the real multi-round circuit and the real experiment kernel (repetitions = 1) are both recorded and compared by TLC with '
+                'IndexKernel.tla per ancilla; non-trivial = >= 2 blocks or a 0-round block' % (ml, mr, dmax, nrand),
+        'samples': [{k: rows[j][k] for k in ('rounds', 'd', 'state', 'cycle')} | {'ancilla': [q for q in rows[j]['qubits'] if q['anc']][:1]} for j in (0, len(rows) // 2)],
+        'mc': {'module': 'MCIndexKernel', 'distinct_states': mc.distinct},
+    })
+    v.assumptions += ['heralded initialisation and qutrit calibration points are what construct_repetition_code_multi_round_circuit always builds (H = 1)']
+    v.finish()
+
+
 def run(pid, tier):
     if pid == 'C12':
         return run_c12(pid, tier)
